@@ -750,6 +750,37 @@ var umuts = []umut{
 	{"auth-drop-first", func(w *world, u *ucase) { dropASes(w, u, false, "first", 1) }},
 	{"core-drop-middle", func(w *world, u *ucase) { dropASes(w, u, true, "middle", 1) }},
 	{"auth-drop-middle", func(w *world, u *ucase) { dropASes(w, u, false, "middle", 1) }},
+	// a NEW sensitive and a NEW regular voter with the same subject DN: both must show proof of
+	// possession; exactly one of the two signatures is missing
+	{"twin-voters-one-signature-missing", func(w *world, u *ucase) {
+		i := w.r.Intn(len(w.twinSens))
+		pair := []*x509.Certificate{w.twinSens[i].Cert, w.twinReg[i].Cert}
+		for _, c := range pair {
+			if u.pred != nil && hasCert(u.pred, c) {
+				return // not new in this update
+			}
+		}
+		for _, c := range pair {
+			if !hasCert(&u.t, c) {
+				w.insertCert(&u.t, c)
+			}
+			dropSigner(u, c)
+		}
+		u.signers = append(u.signers, pair[w.r.Intn(2)])
+	}},
+	{"twin-voters-both-sign", func(w *world, u *ucase) {
+		i := w.r.Intn(len(w.twinSens))
+		for _, c := range []*x509.Certificate{w.twinSens[i].Cert, w.twinReg[i].Cert} {
+			if u.pred != nil && hasCert(u.pred, c) {
+				return
+			}
+			if !hasCert(&u.t, c) {
+				w.insertCert(&u.t, c)
+			}
+			dropSigner(u, c)
+			u.signers = append(u.signers, c)
+		}
+	}},
 	{"sensitive-reissued", func(w *world, u *ucase) {
 		if ix := idxOf(&u.t, cppki.Sensitive); len(ix) > 0 {
 			i := ix[w.r.Intn(len(ix))]
